@@ -9,7 +9,7 @@ def main(tier, t0):
     st = selftest.run(seed(), rounds=30)
     tasks = strfn_check.tasks("C10", tier) + step_check.tasks("C10", tier)
     tasks += [("harness.api", "run_history", "api/" + n, dict(name=n)) for n in ("selectors-fsm", "selectors-json", "custom-instantiation-property", "selectors-two-graphs", "all-classes-plus-shape-map",
-                                                                                 "file-target-classes")]
+                                                                                 "file-target-classes", "selectors-literal-answers", "target-classes-spellings")]
     results = run_pool(tasks, budget_s=600 if tier == "quick" else 3000)
     m, sm = strfn_check.meta("C10"), step_check.meta("C10")
     meta = dict(functions_encoded=m["functions_encoded"] + sm["functions_encoded"], bounds=dict(m["bounds"], **sm["bounds"]),
